@@ -695,6 +695,9 @@ class AndNotMatcher(BiMatcher):
     def value_as(self, astype):
         return self.a.value_as(astype)
 
+    def spans(self):
+        return self.a.spans()
+
 
 class AndMaybeMatcher(AdditiveBiMatcher):
     """Matches postings in the first sub-matcher, and if the same posting is
